@@ -4,36 +4,28 @@
 # applied to a scratch copy of /repo (outside /repo and /verif, removed afterwards)
 # and the property's check must report a VIOLATION there.
 # usage: selftest/run.sh [pattern]   exit 0 iff every mutant is reported
-export GOFLAGS=-mod=mod GOPROXY=off GOSUMDB=off GOTOOLCHAIN=local
+#        SELFTEST_JOBS=n runs n mutants at a time (default 3)
 HERE="$(cd "$(dirname "$0")/.." && pwd)"
 PAT="${1:-}"
-fail=0; n=0
-run_one() { # patch prop label
-  local patch="$1" prop="$2" label="$3"
-  local scratch out
-  scratch=$(mktemp -d /tmp/selftest-XXXXXX); out=$(mktemp -d /tmp/selftest-out-XXXXXX)
-  rsync -a --exclude .git /repo/ "$scratch/"
-  if ! (cd "$scratch" && patch -p1 -s < "$patch"); then echo "SELFTEST-ERROR $label: patch does not apply"; fail=1; rm -rf "$scratch" "$out"; return; fi
-  if ! (cd "$scratch" && go build ./... >/dev/null 2>&1); then echo "SELFTEST-ERROR $label: mutant does not build"; fail=1; rm -rf "$scratch" "$out"; return; fi
-  res=$(VERIF_REPO="$scratch" VERIF_OUT_DIR="$out" "$HERE/check" "$prop" --tier quick 2>&1)
-  if echo "$res" | grep -q "^VIOLATION property=$prop"; then
-     echo "caught   $label  ($(echo "$res" | grep -m1 '^  obligation' | cut -c1-140))"
-  else
-     echo "MISSED   $label"; echo "$res" | tail -3; fail=1
-  fi
-  rm -rf "$scratch" "$out"
-  n=$((n+1))
-}
+list=$(mktemp /tmp/selftest-list-XXXXXX)
 for p in "$HERE"/selftest/mutants/*.patch; do
   [ -e "$p" ] || continue
   b=$(basename "$p" .patch); prop=${b%%-*}
-  case "$b" in *"$PAT"*) run_one "$p" "$prop" "$b";; esac
+  case "$b" in *"$PAT"*) printf '%s\t%s\t%s\n' "$p" "$prop" "$b" >> "$list";; esac
 done
 for d in "$HERE"/seeded/*/; do
   [ -e "$d/patch.diff" ] || continue
   prop=$(python3 -c "import json,sys; print(json.load(open('$d/meta.json'))['property'])" 2>/dev/null) || continue
   b="seeded/$(basename "$d")"
-  case "$b" in *"$PAT"*) run_one "$d/patch.diff" "$prop" "$b";; esac
+  case "$b" in *"$PAT"*) printf '%s\t%s\t%s\n' "$d/patch.diff" "$prop" "$b" >> "$list";; esac
 done
+n=$(wc -l < "$list")
+out=$(mktemp /tmp/selftest-res-XXXXXX)
+tr '\t' '\n' < "$list" | xargs -d '\n' -n 3 -P "${SELFTEST_JOBS:-3}" "$HERE/selftest/one.sh" > "$out" 2>&1
+cat "$out"
+fail=0
+grep -q "^MISSED\|^SELFTEST-ERROR" "$out" && fail=1
+[ "$(grep -c '^caught' "$out")" -eq "$n" ] || fail=1
+rm -f "$list" "$out"
 echo "selftest: $n mutants, fail=$fail"
 exit $fail
